@@ -46,6 +46,8 @@ pub enum Pos {
 }
 
 struct Render {
+    /// how constructor fields are written: 0 = declaration order, 1 = reversed, 2 = rotated by one
+    order: usize,
     types: Vec<String>,
     /// structural key -> type name (equal shapes share one definition)
     memo: BTreeMap<String, String>,
@@ -105,6 +107,17 @@ impl Render {
         }
     }
 
+    /// `fI: e,` entries in the configured written order (the denoted value keeps declaration order)
+    fn written(&self, inner: Vec<String>) -> String {
+        let mut items: Vec<String> = inner.iter().enumerate().map(|(i, e)| format!("f{i}: {e}, ")).collect();
+        match self.order {
+            1 => items.reverse(),
+            2 if items.len() > 1 => items.rotate_left(1),
+            _ => {}
+        }
+        items.concat()
+    }
+
     fn expr(&mut self, v: &V) -> String {
         match v {
             V::Int(n) => n.to_string(),
@@ -126,13 +139,13 @@ impl Render {
             V::Rec(fs) => {
                 let inner: Vec<String> = fs.iter().map(|f| self.expr(f)).collect();
                 let name = self.type_of(v);
-                let body: String = inner.iter().enumerate().map(|(i, e)| format!("f{i}: {e}, ")).collect();
+                let body = self.written(inner);
                 format!("{name} {{ {body}}}")
             }
             V::Var { case, fields, .. } => {
                 let inner: Vec<String> = fields.iter().map(|f| self.expr(f)).collect();
                 let name = self.type_of(v);
-                let body: String = inner.iter().enumerate().map(|(i, e)| format!("f{i}: {e}, ")).collect();
+                let body = self.written(inner);
                 format!("{name}::K{case} {{ {body}}}")
             }
             V::List(xs) => {
@@ -170,8 +183,8 @@ pub fn expected(v: &V) -> PData {
 
 pub const MINT_POLICY: [u8; 28] = [0x5a; 28];
 
-pub fn render(v: &V, pos: Pos) -> (String, tx3_tir::reduce::ArgMap) {
-    let mut r = Render { types: vec![], memo: BTreeMap::new(), params: vec![] };
+pub fn render(v: &V, pos: Pos, order: usize) -> (String, tx3_tir::reduce::ArgMap) {
+    let mut r = Render { order, types: vec![], memo: BTreeMap::new(), params: vec![] };
     r.type_of(v);
     let e = r.expr(v);
     let params: String = r.params.iter().map(|(n, t, _)| format!("{n}: {t}, ")).collect();
@@ -294,8 +307,8 @@ fn int_class(v: &V) -> Option<&'static str> {
     }
 }
 
-pub fn judge(v: &V, pos: Pos, o: &mut Outcome) {
-    let (src, args) = render(v, pos);
+pub fn judge(v: &V, pos: Pos, order: usize, o: &mut Outcome) {
+    let (src, args) = render(v, pos, order);
     let exp = expected(v);
     let qual = format!("{}|{}", shape_kind(v), int_class(v).unwrap_or("-"));
     let posname = format!("{pos:?}");
@@ -396,8 +409,9 @@ fn field_kind(k: usize) -> V {
     }
 }
 
-fn gen_shape(c: &mut Chooser) -> (V, Pos) {
+fn gen_shape(c: &mut Chooser) -> (V, Pos, usize) {
     let pos = *c.pick(&[Pos::Datum, Pos::MintRedeemer, Pos::InputRedeemer]);
+    let order = c.choose(3);
     let nfields = c.choose(7);
     let fields: Vec<V> = (0..nfields).map(|_| field_kind(c.choose(12))).collect();
     let wrapper = c.choose(3);
@@ -406,7 +420,7 @@ fn gen_shape(c: &mut Chooser) -> (V, Pos) {
         1 => V::Var { cases: 2, case: 1, fields },
         _ => V::List(fields),
     };
-    (v, pos)
+    (v, pos, order)
 }
 
 fn int_values() -> Vec<i128> {
@@ -456,7 +470,7 @@ impl Prop for C09 {
         format!(
             "programs generated from source and run through parse/analyze/lower/apply/reduce/compile; data read back with an independent Plutus-Data \
              reader. Axes (each complete): constructor index: {} (N, i) pairs x 3 positions (datum, mint redeemer, input redeemer); field shapes: all \
-             executions with <= 2 deviations of (position x 0..6 fields x 12 field kinds x record/variant/list wrapper); integers: every +-2^k, \
+             executions with <= 2 deviations of (position x written field order x 0..6 fields x 12 field kinds x record/variant/list wrapper); integers: every +-2^k, \
              +-(2^k +- 1), k < 127, i128 extremes ({} values) as parameter and (64-bit range) as literal, in datum and redeemer; byte strings of \
              every length 0..100 as parameter and literal. Non-trivial = the pipeline produced a payload and the data was decoded and compared; \
              distinct = distinct (value, position).",
@@ -484,9 +498,17 @@ impl Prop for C09 {
             }
         }
         let mut gen = |c: &mut Chooser| gen_shape(c);
-        dbx::explore(2, &mut gen, &mut |choices, _d, (v, pos)| {
-            sink.case(|| json!({"kind": "shape", "choices": choices, "pos": pos, "value": v}));
+        dbx::explore(2, &mut gen, &mut |choices, _d, (v, pos, order)| {
+            sink.case(|| json!({"kind": "shape", "choices": choices, "pos": pos, "order": order, "value": v}));
         });
+        // every written order of a fixed 3-field record / variant, in each position
+        for order in 0..3usize {
+            for pos in POSITIONS {
+                let fields = vec![V::Int(11), V::Bytes(vec![0xAA, 0xBB]), V::Int(3)];
+                sink.case(|| json!({"kind": "written-order", "pos": pos, "order": order, "value": V::Rec(fields.clone())}));
+                sink.case(|| json!({"kind": "written-order", "pos": pos, "order": order, "value": V::Var { cases: 3, case: 1, fields: fields.clone() }}));
+            }
+        }
         for n in int_values() {
             for pos in [Pos::Datum, Pos::MintRedeemer] {
                 sink.case(|| json!({"kind": "int-param", "pos": pos, "value": V::Rec(vec![V::ParamInt(n)])}));
@@ -512,7 +534,7 @@ impl Prop for C09 {
         let v: V = serde_json::from_value(case["value"].clone()).expect("value");
         let pos: Pos = serde_json::from_value(case["pos"].clone()).expect("pos");
         o.evals = 1;
-        judge(&v, pos, &mut o);
+        judge(&v, pos, case["order"].as_u64().unwrap_or(0) as usize, &mut o);
         if o.classes.keys().any(|k| k.starts_with("decoded") || k == "not-plutus-data") {
             o.key(hash64(&case.to_string()));
         }
